@@ -30,33 +30,32 @@ Definition observe_tie (a : areq) (q : creq) (head : bytes) : bool :=
   | None => false
   end.
 
-Definition h23_lines (proto : nat) (q : creq) : list line :=
-  match proto with 2 => h2_lines q | _ => h3_lines q end.
-
-Definition req_check (proto : nat) (a : areq) (obs : req_obs) : bool :=
+Definition req_check_h1 (a : areq) (obs : req_obs) : bool :=
   match to_creq a with
   | Unsupported => false
   | Rejected => match obs with OErr => true | _ => false end
   | Sent q =>
-      let body := match eff_kind a with BNone => [] | _ => a_body a end in
-      match proto with
-      | 1 =>
-          match h1_head q body, obs with
-          | Rejected, OErr => true
-          | Sent hd, OH1 head chunked same noextra =>
-              bytes_eqb hd head && Bool.eqb (h1_chunked q body) chunked && same && noextra &&
-              (if chunked then true else observe_tie a q head)
-          | _, _ => false
-          end
-      | _ =>
-          if negb (is_ascii (c_host q)) then false
-          else if negb (valid_host_header (c_host q)) then match obs with OErr => true | _ => false end
-          else match obs with
-               | OH23 fields same =>
-                   list_eqb line_eqb (sorted_lines (h23_lines proto q)) (sorted_lines fields) && same
-               | _ => false
-               end
+      let body := eff_body a in
+      match h1_head q body, obs with
+      | Rejected, OErr => true
+      | Sent hd, OH1 head chunked same noextra =>
+          bytes_eqb hd head && Bool.eqb (h1_chunked q body) chunked && same && noextra &&
+          (if chunked then true else observe_tie a q head)
+      | _, _ => false
       end
+  end.
+
+Definition h23_lines (proto : nat) (q : creq) : list line :=
+  match proto with 2 => h2_lines q | _ => h3_lines q end.
+
+Definition req_check (proto : nat) (a : areq) (obs : req_obs) : bool :=
+  match proto with
+  | 1 => req_check_h1 a obs
+  | _ => match (match proto with 2 => fields_h2 a | _ => fields_h3 a end), obs with
+         | Rejected, OErr => true
+         | Sent ls, OH23 fields same => list_eqb line_eqb (sorted_lines ls) (sorted_lines fields) && same
+         | _, _ => false
+         end
   end.
 
 Definition c01_check (c : c01_case) : bool :=
